@@ -601,6 +601,13 @@ func runSignScenario(w *World, tier string, prop string) (bool, interface{}) {
 				bs = 18630
 			}
 			tasks := []TaskSpec{{File: "shared document", Payload: doc}, {Baked: true, Start: bs, End: bs + 2}}
+			// the board may be unreachable for one node of both rounds at the very moment it
+			// publishes its reconstruction in the first round: whatever that node does about
+			// it later, a signature that reaches the board or a store belongs to the round
+			// and the batch it is filed under
+			if w.Tape.Bool(1, 2, "publicationRefused") {
+				w.Nodes[members2[w.Tape.Choose(len(members2), "publicationRefusedFor")]].Handle.SendErrOnEvent = "signature_reconstructed"
+			}
 			for _, rr := range []struct {
 				r string
 				m []int
